@@ -277,6 +277,7 @@ func runC11(w *World) *Result {
 	CharAccessRule(w, r, "R-C11-bytes")
 	r.Rule("R-C11-int", "integer literals keep their value: parsed by an integer parser, never through a floating-point type", 1)
 	IntLiteralRule(w, r, "R-C11-int")
+	DelimiterSearchRule(w, r, "R-C11-regex")
 	r.Rule("R-C11-sign", "the operator - is recognised after an operand whatever separates them: the probe that can start with a sign is conditioned on the previous token that was kept, and on every token type that can end an integer operand", 2)
 	SignRule(w, r, "R-C11-sign")
 	r.Rule("R-C11-pos", "arms that can consume \\n assign the row counter, and compute every position update from the consumed source text (not the decoded value)", 5)
